@@ -1,4 +1,4 @@
 SPECIFICATION Spec
 CONSTANTS Variant = "ok"
-INVARIANTS SameTruth
+INVARIANTS SameTruth CmpOK
 CHECK_DEADLOCK FALSE
